@@ -58,7 +58,16 @@ func NewCheck(id, tier string, p *Prog) *Check {
 }
 
 // Rule declares a rule and its text (shown in evidence).
+var ruleClock = time.Now()
+var ruleLast = ""
+
 func (c *Check) Rule(name, text string) {
+	if os.Getenv("VERIF_TIMING") != "" {
+		if ruleLast != "" {
+			fmt.Fprintf(os.Stderr, "timing %-6s %-34s %6.2fs\n", c.ID, ruleLast, time.Since(ruleClock).Seconds())
+		}
+		ruleLast, ruleClock = name, time.Now()
+	}
 	if _, ok := c.Rules[name]; !ok {
 		c.RuleOrder = append(c.RuleOrder, name)
 	}
